@@ -186,7 +186,7 @@ class Evaluator:
                 return ("tuple", (("star", g),))
             return ("comp", fn.rsplit(".", 1)[1], g[2], g[3], g[4])
         # class tuples hoisted into module-level constants of the package read like the literal tuple
-        if fn in ("builtins.isinstance", "builtins.issubclass", "typelib.py.inspection._safe_issubclass") and len(args) == 2 and not kw:
+        if (fn in ("builtins.isinstance", "builtins.issubclass") or fn in self.prog.safe_subclass_helpers()) and len(args) == 2 and not kw:
             cl = args[1]
             if cl[0] == "ref" and cl[1].startswith("typelib.") or (cl[0] == "tuple" and any(x[0] == "star" for x in cl[1])):
                 items = flatten_display(self.prog, cl)
@@ -602,7 +602,16 @@ class PathEnumerator:
             if tm[0] == "yield":
                 st.events.append(("yield", tm[1]))
             else:
-                st.events.append(("eval", tm))
+                # `s.update((a, b))` on a set is `s.add(a); s.add(b)`
+                if (
+                    tm[0] == "call" and tm[1][0] == "attr" and tm[1][2] == "update" and len(tm[2]) == 1 and not tm[3]
+                    and tm[2][0][0] in ("tuple", "list", "set") and (tm[1][1][0] == "set" or T.is_call_to(tm[1][1], "builtins.set"))
+                    and not any(x[0] == "star" for x in tm[2][0][1])
+                ):  # fmt: skip
+                    for x in tm[2][0][1]:
+                        st.events.append(("eval", ("call", ("attr", tm[1][1], "add"), (x,), ())))
+                else:
+                    st.events.append(("eval", tm))
                 self._accumulate(s.value, tm, st)
             return [(st, N)]
         if isinstance(s, ast.Assign):
